@@ -1062,8 +1062,11 @@ pub mod mix {
     pub fn gen_imd(rng: &mut Rng) -> ImdDesc {
         let header = format!("IMD 1.1{}: {:02}/{:02}/{:04} {:02}:{:02}:{:02}", rng.below(10), 1 + rng.below(28), 1 + rng.below(12), 1980 + rng.below(40), rng.below(24), rng.below(60), rng.below(60)).into_bytes();
         assert_eq!(header.len(), 29);
-        let words = ["dump of a damaged disk", "side A", "retry count 5", "", "CP/M 2.2 system", "line one\r\nline two", "x"];
-        let comment = rng.pick(&words[..]).as_bytes().to_vec();
+        // the header note of a foreign file: ASCII, multi-byte UTF-8, NUL / CR / LF inside, and (rarely) code-page bytes
+        // that are not UTF-8 — such a file is refused as a whole (`String::from_utf8`)
+        let words: [&[u8]; 11] = [b"dump of a damaged disk", b"side A", b"retry count 5", b"", b"CP/M 2.2 system", b"line one\r\nline two", b"x",
+            "Gr\u{fc}\u{df}e \u{2014} \u{65e5}\u{672c}\u{8a9e}".as_bytes(), b"nul\0inside\rlone cr\nlone lf", b"Gr\x81\xe1e (CP437)", b"truncated \xe6\x97"];
+        let comment = rng.pick(&words[..]).to_vec();
         let ntr = 1 + rng.below(4);
         let mut tracks: Vec<ImdTrk> = Vec::new();
         for k in 0..ntr {
@@ -1112,8 +1115,11 @@ pub mod mix {
         let sigp = format!("{}/imd/mixed-records", fam);
         let mut desc = format!("idx={} imd-mixed tracks=[{}] file={} ops=", idx,
             d.tracks.iter().map(|t| format!("c{}h{}z{}:{}", t.cyl, t.head, 128 << t.shift, t.secs.iter().map(|s| format!("{}/{}", s.id, s.code)).collect::<Vec<_>>().join(","))).collect::<Vec<_>>().join(" "), hx(&file));
+        let valid = std::str::from_utf8(&d.comment).is_ok();
+        let prefix = format!("{} imdseqx {} {}", fam, hx(&file), valid as u8);
         let mut img: Box<dyn DiskImage> = match guarded(|| a2kit::img::imd::Imd::from_bytes(&file)) {
             Ok(Ok(i)) => Box::new(i),
+            Ok(Err(_)) if !valid => { ctx.out.q(&format!("{} -", prefix), "load:err"); ctx.out.count("mixed:imd:non-utf8-note-refused"); ctx.out.case(&file, false); return; }
             Ok(Err(e)) => { ctx.out.q(&format!("{} imdseq {} -", fam, hx(&file)), "load:err"); ctx.out.oracle(false, "mixed-image-loads", &format!("{}/load-refused", sigp), &format!("{} err={}", desc, e)); ctx.out.case(&file, false); return; }
             Err(p) => { ctx.out.q(&format!("{} imdseq {} -", fam, hx(&file)), "load:panic"); ctx.out.oracle(false, "mixed-image-loads", &format!("{}/load-panic:{}", sigp, src_file(&p)), &format!("{} panic={}", desc, p)); ctx.out.case(&file, false); return; }
         };
@@ -1205,7 +1211,7 @@ pub mod mix {
             }
         }
         let nontrivial = wrote && read_after && d.tracks.iter().any(|t| t.secs.iter().any(|s| s.code == 0) || t.secs.iter().any(|s| s.code % 2 == 0));
-        finish_seq(ctx, fam, "imdseq", &file, q, &desc, nontrivial, "imd");
+        finish_seq(ctx, &prefix, q, &desc, nontrivial, "imd");
     }
 
     /// read one sector through the real code, compare with the reference; returns true if it was a record with data
@@ -1265,8 +1271,8 @@ pub mod mix {
         }
     }
 
-    fn finish_seq(ctx: &mut Ctx, fam: &str, op: &str, file: &[u8], q: Seq, desc: &str, nontrivial: bool, typ: &str) {
-        ctx.out.q(&format!("{} {} {} {}", fam, op, hx(file), if q.ops.is_empty() { "-".to_string() } else { q.ops.join(";") }), &q.ans.join(";"));
+    fn finish_seq(ctx: &mut Ctx, prefix: &str, q: Seq, desc: &str, nontrivial: bool, typ: &str) {
+        ctx.out.q(&format!("{} {}", prefix, if q.ops.is_empty() { "-".to_string() } else { q.ops.join(";") }), &q.ans.join(";"));
         if q.fails.is_empty() { ctx.out.oracle(true, "mixed-image-store", "-", &format!("idx={}", desc.split(' ').next().unwrap_or("").trim_start_matches("idx="))); }
         let mut seen = std::collections::BTreeSet::new();
         for (o, s, w) in &q.fails { if seen.insert((o.clone(), s.clone())) { ctx.out.oracle(false, o, s, &format!("{} :: {}", desc, w)); } }
@@ -1366,8 +1372,15 @@ pub mod mix {
     pub fn gen_td0(rng: &mut Rng) -> TdDesc {
         let sides = 1 + rng.below(2) as u8;
         let hdr8 = vec![0, rng.byte(), 0x15, *rng.pick(&[0u8, 1, 2, 0x80]), rng.below(7) as u8, rng.below(3) as u8, rng.below(2) as u8, sides];
-        let texts: [&[u8]; 6] = [b"", b"disk 3 of 7", b"line one\0line two", b"dumped with TELEDISK 2.15\0\0", b"x", b"Backup of the accounting diskette\0made from drive B:"];
-        let comment = if rng.chance(65) { Some((vec![80 + rng.below(40) as u8, rng.below(12) as u8, 1 + rng.below(28) as u8, rng.below(24) as u8, rng.below(60) as u8, rng.below(60) as u8], rng.pick(&texts[..]).to_vec())) } else { None };
+        // the comment of a foreign file is ANY byte string: OEM code page bytes that are not UTF-8 (three bytes U+FFFD each in
+        // memory), `\r\0` line ends (folded into one line end), CR LF / lone LF / lone CR in the file, trailing NULs, only NULs,
+        // multi-byte UTF-8 whole and cut, empty, long, and long enough that the notes in memory exceed the 16-bit length field
+        let texts: [&[u8]; 16] = [b"", b"disk 3 of 7", b"line one\0line two", b"dumped with TELEDISK 2.15\0\0", b"x", b"Backup of the accounting diskette\0made from drive B:",
+            b"Gr\x81\xe1e aus M\x81nchen\0Diskette 2", b"line one\r\0line two\r\0", b"crlf in the file\r\nnext\nlone lf\rlone cr", b"\0\0\0", b"\x81",
+            "\u{65e5}\u{672c}\u{8a9e} \u{fc}".as_bytes(), b"cut \xe6\x97", b"\r\r\0\r\n\0", b"tail\r", b"\xff\xfe\x00\xc0\x80"];
+        let mut text = rng.pick(&texts[..]).to_vec();
+        match rng.below(20) { 0 => { let n_ = 300 + rng.below(1700); text = rng.bytes(n_); } 1 => { let k = 2 + rng.below(40); text = text.repeat(k); } 2 => { text = vec![0x81; 21000 + rng.below(2000)]; } _ => {} }
+        let comment = if rng.chance(70) { Some((vec![80 + rng.below(40) as u8, rng.below(12) as u8, 1 + rng.below(28) as u8, rng.below(24) as u8, rng.below(60) as u8, rng.below(60) as u8], text)) } else { None };
         let ntr = 1 + rng.below(4);
         let mut tracks: Vec<TdTrk> = Vec::new();
         for k in 0..ntr {
@@ -1388,6 +1401,20 @@ pub mod mix {
             tracks.push(TdTrk { cyl, head: head | if rng.chance(10) { 0x80 } else { 0 }, secs, pos: 0 });
         }
         TdDesc { hdr8, comment, tracks }
+    }
+
+    /// probe of the tree being checked (code as written / as repaired): are notes that the 16-bit length field of the comment
+    /// header cannot express refused by `put_metadata` (and cut when a foreign file is loaded)?
+    pub fn td0_limits_notes() -> bool {
+        use std::sync::OnceLock;
+        static P: OnceLock<bool> = OnceLock::new();
+        *P.get_or_init(|| {
+            let r = guarded(|| {
+                let mut t = a2kit::img::td0::Td0::create(a2kit::img::names::OSBORNE1_SD_KIND);
+                t.put_metadata(&vec!["td0".to_string(), "comment".to_string(), "notes".to_string()], &json::JsonValue::String("x".repeat(70000))).is_err()
+            });
+            r.unwrap_or(false)
+        })
     }
 
     fn td_notes_mem(text: &[u8]) -> String { String::from_utf8_lossy(text).replace('\u{0}', "\n") }
@@ -1449,7 +1476,12 @@ pub mod mix {
                 // the saved image must load again whatever was edited (this is what a user sees of a bad integrity field)
                 match guarded(|| a2kit::img::td0::Td0::from_bytes(&b)) {
                     Ok(Ok(i)) => { if reload { q.ops.push("ld".into()); *img = Box::new(i); q.ans.push("ok".into()); for t in &mut d.tracks { t.pos = 0; } } }
-                    Ok(Err(e)) => { if reload { q.ops.push("ld".into()); q.ans.push("err".into()); } q.fail("saved-image-reloads", format!("{}/reload-refused", sigp), e.to_string()); }
+                    Ok(Err(e)) => {
+                        if reload { q.ops.push("ld".into()); q.ans.push("err".into()); }
+                        // notes that the 16-bit length field of the comment header cannot express: a class of its own
+                        let long = d.comment.as_ref().map(|c| c.1.len() > 65535).unwrap_or(false);
+                        q.fail("saved-image-reloads", format!("{}/reload-refused{}", sigp, if long { ":notes-exceed-16-bit-length" } else { "" }), e.to_string());
+                    }
                     Err(p) => { if reload { q.ops.push("ld".into()); q.ans.push("panic".into()); } q.stop = true; q.fail("saved-image-reloads", format!("{}/reload-panic:{}", sigp, src_file(&p)), p); }
                 }
             }
@@ -1462,16 +1494,34 @@ pub mod mix {
         let mut d = gen_td0(rng);
         let file = td_encode(&d);
         let sigp = format!("{}/td0/mixed-flags", fam);
-        let mut desc = format!("idx={} td0-mixed comment={:?} tracks=[{}] file={} ops=", idx, d.comment.as_ref().map(|c| String::from_utf8_lossy(&c.1).to_string()),
+        let mut desc = format!("idx={} td0-mixed comment={:?} tracks=[{}] file={} ops=", idx, d.comment.as_ref().map(|c| String::from_utf8_lossy(&c.1[..c.1.len().min(60)]).to_string()),
             d.tracks.iter().map(|t| format!("c{}h{}:{}", t.cyl, t.head, t.secs.iter().map(|s| format!("{}/z{}/f{:02x}/e{}", s.id(), s.shift(), s.flags(), s.rec.get(2).map(|e| e.to_string()).unwrap_or("-".into()))).collect::<Vec<_>>().join(","))).collect::<Vec<_>>().join(" "), hx(&file));
+        // `String::from_utf8_lossy` of the comment bytes: std's, handed to the model as a parameter
+        let lossy: Vec<u8> = d.comment.as_ref().map(|c| String::from_utf8_lossy(&c.1).into_owned().into_bytes()).unwrap_or_default();
+        let fix = td0_limits_notes();
+        let prefix = format!("{} td0seqx {} {} {}", fam, hx(&file), hx(&lossy), fix as u8);
         let mut img: Box<dyn DiskImage> = match guarded(|| a2kit::img::td0::Td0::from_bytes(&file)) {
             Ok(Ok(i)) => Box::new(i),
             Ok(Err(e)) => { ctx.out.q(&format!("{} td0seq {} -", fam, hx(&file)), "load:err"); ctx.out.oracle(false, "mixed-image-loads", &format!("{}/load-refused", sigp), &format!("{} err={}", desc, e)); ctx.out.case(&file, false); return; }
             Err(p) => { ctx.out.q(&format!("{} td0seq {} -", fam, hx(&file)), "load:panic"); ctx.out.oracle(false, "mixed-image-loads", &format!("{}/load-panic:{}", sigp, src_file(&p)), &format!("{} panic={}", desc, p)); ctx.out.case(&file, false); return; }
         };
-        // the notes in memory: NUL is a line end
-        if let Some((_, text)) = &mut d.comment { *text = td_notes_file(&normalize(&td_notes_mem(text))); }
+        // the notes in memory: NUL is a line end; the repaired tree cuts what the 16-bit length field cannot express
+        if let Some((_, text)) = &mut d.comment {
+            let mut notes = normalize(&td_notes_mem(text));
+            if fix && notes.len() > 65535 { let mut e = 65535; while !notes.is_char_boundary(e) { e -= 1; } notes.truncate(e); }
+            *text = td_notes_file(&notes);
+        }
         let mut q = Seq { ops: vec![], ans: vec!["load:ok".into()], fails: vec![], stop: false };
+        // what a2kit shows of the foreign comment, then (half of the cases) a save of the UNTOUCHED object and a reload
+        {
+            q.ops.push("mg".into());
+            let got = leaf(&img.get_metadata(None), &["td0", "comment", "notes"]);
+            q.ans.push(match &got { Some(s) => format!("mg:{}", hx(s.as_bytes())), None => "mg:none".into() });
+            let want = d.comment.as_ref().map(|c| td_notes_mem(&c.1));
+            if got != want { q.fail("foreign-notes-shown", format!("{}/loaded-notes-differ", sigp), format!("want {:?} got {:?}", want, got)); }
+            if d.comment.as_ref().map(|c| c.1.len() > 65535).unwrap_or(false) { ctx.out.count("mixed:td0:notes-exceed-16-bit-length"); }
+            if rng.chance(50) { td_save(&mut img, &mut d, &mut q, &sigp, &mut desc, true); }
+        }
         let mut last_w: Option<(usize, usize)> = None;
         let ntr = d.tracks.len();
         let nops = 10 + rng.below(22);
@@ -1538,22 +1588,25 @@ pub mod mix {
             } else if r < 88 || (with_meta && r < 92) {
                 td_save(&mut img, &mut d, &mut q, &sigp, &mut desc, false);
             } else if with_meta && r < 98 {
-                let v = note_texts(rng, false);
+                let mut v = note_texts(rng, false);
+                if rng.chance(4) { v = "0123456789abcdef".repeat(4100 + rng.below(200)); } // more than the length field can say
+                let too_long = fix && normalize(&v).len() > 65535;
                 let key = vec!["td0".to_string(), "comment".to_string(), "notes".to_string()];
                 let res = guarded(|| img.put_metadata(&key, &json::JsonValue::String(v.clone())).map_err(|e| e.to_string()));
                 let meta = img.get_metadata(None);
                 // the time stamp of a comment block made now is whatever the clock says: taken from what the object shows
                 let stamp = leaf(&meta, &["td0", "comment", "timestamp", "_raw"]).and_then(|s| hex::decode(s).ok()).unwrap_or(vec![0; 6]);
-                desc += &format!("NT{:?} ", v);
+                desc += &format!("NT{:?} ", v.chars().take(60).collect::<String>());
                 q.ops.push(format!("nt:{}:{}", hx(&stamp), hx(v.as_bytes())));
                 match res {
                     Ok(Ok(())) => {
                         q.ans.push("ok".into());
                         if v.contains('\u{0}') { q.fail("metadata-put", format!("{}/notes-with-nul-accepted", sigp), format!("{:?}", v)); }
+                        if too_long { q.fail("metadata-put", format!("{}/over-long-notes-accepted", sigp), format!("{} bytes", v.len())); }
                         let text = td_notes_file(&normalize(&v));
                         d.comment = Some(match d.comment.take() { Some((st, _)) => (st, text), None => (stamp.clone(), text) });
                     }
-                    Ok(Err(_)) => { q.ans.push("refused".into()); if !v.contains('\u{0}') { q.fail("metadata-put", format!("{}/notes-refused", sigp), format!("{:?}", v)); } }
+                    Ok(Err(_)) => { q.ans.push("refused".into()); if !v.contains('\u{0}') && !too_long { q.fail("metadata-put", format!("{}/notes-refused", sigp), format!("{:?}", &v[..v.len().min(80)])); } }
                     Err(p) => { q.ans.push("panic".into()); q.stop = true; q.fail("no-panic", format!("{}/put_metadata-panic:{}", sigp, src_file(&p)), p); }
                 }
                 if !q.stop {
@@ -1575,7 +1628,8 @@ pub mod mix {
             }
         }
         if wrote_flagged_uniform { ctx.out.count("mixed:td0:uniform-write-to-no-data-sector"); }
+        ctx.out.count(if fix { "probe:td0-notes-limited-to-65535" } else { "probe:td0-notes-unlimited" });
         let nontrivial = wrote && read_after && d.tracks.iter().any(|t| t.secs.iter().any(|s| s.rec.get(2).map(|e| *e != 0).unwrap_or(true)));
-        finish_seq(ctx, fam, "td0seq", &file, q, &desc, nontrivial, "td0");
+        finish_seq(ctx, &prefix, q, &desc, nontrivial, "td0");
     }
 }
